@@ -264,8 +264,97 @@ def run(prog: Program) -> Results:
                     f"{fk}: `{text[:90]}` stores the result of memoised `{origin[len('G:cache:'):]}` into the document: every edit "
                     f"given the same argument inserts the very same mutable object, so an edit below one of those bindings changes "
                     f"bindings it does not address")
+    identity_matching(prog, res, "R-C04-7")
+    search_then_insert(prog, res, "R-C04-8")
     from sa.rules import merge
     merge.check(prog, res, "R-C04-5", "R-C04-6")
     res.tables.append("allowed write classes enumerated in sa/rules/c04.py:classify (derived from the mechanisms the property names)")
     res.assumptions = ["byte extents outside the target are the renderer's behaviour and are not decided here"]
     return res
+
+
+def identity_matching(prog: Program, res: Results, rid: str) -> None:
+    """order mirrors hold entries of *different* parents; leaves with the same last segment, value and trivia compare equal
+    (dataclass equality), so the entry of the located binding must be found by identity"""
+    r = res.rule(rid, "the order entry of a located binding is found by identity: loops over an `attrpath_order` list that delete "
+                 "an entry compare with `is`; no equality-based search (`==`, list.remove/index/count, `in`) is applied to an "
+                 "order list, where look-alike leaves of different parents are equal", floor=3)
+    for f in prog.all_functions():
+        if f.module.endswith("color.py"):
+            continue
+        for n in walk_no_nested(f.node):
+            # loops over an order list that delete from it
+            if isinstance(n, ast.For):
+                it = n.iter.args[0] if isinstance(n.iter, ast.Call) and callee(n.iter) == "enumerate" and n.iter.args else n.iter
+                if "attrpath_order" not in norm(it):
+                    continue
+                deletes = [d for d in ast.walk(n) if (isinstance(d, ast.Delete) and any(norm(it) in norm(t) for t in d.targets))
+                           or (isinstance(d, ast.Call) and isinstance(d.func, ast.Attribute) and d.func.attr in ("remove", "pop") and norm(d.func.value) == norm(it))]
+                if not deletes:
+                    continue
+                r.instances += 1
+                elem = [x.id for x in ast.walk(n.target) if isinstance(x, ast.Name)]
+                cmps = [c for c in ast.walk(n) if isinstance(c, ast.Compare) and any(e in norm(c) for e in elem)
+                        and any(isinstance(op, (ast.Is, ast.IsNot, ast.Eq, ast.NotEq)) for op in c.ops)]
+                eq = [c for c in cmps if any(isinstance(op, (ast.Eq, ast.NotEq)) for op in c.ops)
+                      and not any(isinstance(x, ast.Constant) for x in [c.left] + c.comparators)
+                      and not any(isinstance(x, ast.Attribute) and x.attr in ("name", "type") for x in [c.left] + c.comparators)]
+                ident = [c for c in cmps if any(isinstance(op, (ast.Is, ast.IsNot)) for op in c.ops)
+                         and not any(isinstance(x, ast.Constant) for x in c.comparators)]
+                removes = [d for d in deletes if isinstance(d, ast.Call) and d.func.attr == "remove"]
+                ok = bool(ident) and not eq and not removes
+                r.ob(ok, {"site": f.key, "loop": norm(it)[:50], "identity_tests": [norm(c)[:50] for c in ident][:2]})
+                if not ok:
+                    what = eq[0] if eq else (removes[0] if removes else n)
+                    res.add(rid, (f.key, "order entry matched by equality", norm(it)[:40]), f.loc(what),
+                            f"{f.key}: the entry to delete from `{norm(it)[:50]}` is selected by `{norm(what)[:60]}` (equality): leaves of "
+                            f"different attrpath parents with the same last segment and value are equal, so `rm services.fail2ban.enable` "
+                            f"deletes the line of `services.nginx.enable`")
+            elif isinstance(n, ast.Call) and isinstance(n.func, ast.Attribute) and n.func.attr in ("remove", "index", "count") \
+                    and "attrpath_order" in norm(n.func.value):
+                inside_loop = False
+                r.instances += 1
+                r.ob(False, {"site": f.key, "call": norm(n)[:60]})
+                res.add(rid, (f.key, "equality-based search of an order list", n.func.attr), f.loc(n),
+                        f"{f.key}: `{norm(n)[:70]}` searches an order list by equality; look-alike leaves of different parents are equal")
+
+
+def search_then_insert(prog: Program, res: Results, rid: str) -> None:
+    """lookup-or-create: `b = find(C, k); if b is None: …; D.append(new)` — the new object must go into the container that was
+    searched (and that later lookups will search), i.e. D is C"""
+    r = res.rule(rid, "lookup-or-create inserts where it looked: when a binding is searched in a container and created because it "
+                 "was not found, it is appended to that same container (the next lookup along the same path must find it)", floor=3)
+    for f in prog.all_functions():
+        if f.module.endswith("color.py"):
+            continue
+        for n in walk_no_nested(f.node):
+            if not (isinstance(n, ast.If) and isinstance(n.test, ast.Compare) and len(n.test.ops) == 1 and isinstance(n.test.ops[0], ast.Is)
+                    and isinstance(n.test.left, ast.Name) and isinstance(n.test.comparators[0], ast.Constant) and n.test.comparators[0].value is None):
+                continue
+            x = n.test.left.id
+            apps = [c for st in n.body for c in ast.walk(st) if isinstance(c, ast.Call) and isinstance(c.func, ast.Attribute) and c.func.attr in ("append", "insert")]
+            if not apps:
+                continue
+            searched = set()
+            for d in ast.walk(f.node):
+                if isinstance(d, ast.Assign) and norm(d.targets[0]) == x and isinstance(d.value, ast.Call):
+                    v = d.value
+                    cn = callee(v)
+                    if cn in ("_find_named_binding", "_find_binding", "_find_attrpath_root") and v.args:
+                        searched.add(norm(v.args[0]))
+                    elif cn == "next" and v.args and isinstance(v.args[0], ast.GeneratorExp):
+                        searched.add(norm(v.args[0].generators[0].iter))
+                    elif cn == "_find_binding_index" and isinstance(v.func, ast.Attribute):
+                        searched.add(norm(v.func.value))
+            if not searched:
+                continue
+            searched |= {s_ + ".values" for s_ in searched} | {s_[:-7] for s_ in searched if s_.endswith(".values")}
+            r.instances += 1
+            targets = [norm(c.func.value) for c in apps if "attrpath_order" not in norm(c.func.value) and "order" not in norm(c.func.value).split(".")[-1]]
+            bad = [t for t in targets if t not in searched]
+            r.ob(not bad, {"site": f.key, "searched": sorted(searched)[:3], "inserted_into": targets})
+            for t in bad:
+                res.add(rid, (f.key, "created object inserted into a different container", t), f.loc(n),
+                        f"{f.key}: `{x}` is looked up in {sorted(searched)[:2]} but, when missing, the new object is appended to `{t}`: "
+                        f"the text may still render through an order list, but the next set/rm along the same path does not find it "
+                        f"(duplicate line / KeyError)")
